@@ -28,7 +28,7 @@ RULE = (
 ASSUMPTIONS = ["model: ids 1..0xFFFF repeating per destination; reboot flag set exactly on datagrams before the first wrap",
                "the default (multicast) destination is always addressed with remote=None, as the library itself does"]
 FLOORS = {"quick": {"datagrams_decoded": 400000, "wraps_observed": 8, "empty_sends": 1000, "full_cycle_walks": 1,
-                    "notification_wraps": 6, "notification_wraps_inside_a_datagram": 4, "announcer_path_datagrams": 1000, "destinations_checked": 12, "churn_notifications_checked": 3000, "crowd_destinations": 4000,
+                    "notification_wraps": 6, "notification_wraps_inside_a_datagram": 4, "announcer_path_datagrams": 1000, "destinations_checked": 12, "churn_notifications_checked": 3000, "crowd_destinations": 4000, "answer_path_datagrams": 3000, "find_and_subscribe_of_one_peer_in_one_iteration": 2000,
                     "mesh_scenarios": 100, "mesh_session_ids_checked": 4800}}
 # system-level shards: the mesh workload of pv/mesh.py under this property's boundary monitors (reports of other monitors are dropped)
 MESH = {"want": ("wire",), "claim": ("mesh:session-id", "mesh:reboot-flag-wrong", "mesh:empty-sd-message"),
@@ -191,6 +191,53 @@ def walk_announcer(ctx, spec, rng):
     h.close()
     for b in bad:
         ctx.violation("unexpected-exception-during-run", b, dict(spec=spec))
+
+
+def walk_answers(ctx, spec, rng):
+    """messages the stack produces by itself while it handles what it receives: acknowledgements (made inside the receive
+    path when nothing is collected), answers to FindService (made right after it), cyclic offers - for peers whose Find and
+    Subscribe arrive in one loop iteration, in either order, in one datagram or two"""
+    import someip.config as C
+    import someip.sd as S
+
+    for sc in range(spec["scenarios"]):
+        h = Harness(random.Random(rng.random()), max_iterations=400000)
+        collect = (0, 0, 2.0 ** -7)[sc % 3]
+        tm = net.timings(INITIAL_DELAY_MIN=0, INITIAL_DELAY_MAX=0, REPETITIONS_MAX=0, CYCLIC_OFFER_DELAY=rng.choice((0, 0.5)),
+                         SEND_COLLECTION_TIMEOUT=collect, REQUEST_RESPONSE_DELAY_MIN=0, REQUEST_RESPONSE_DELAY_MAX=0)
+        prot, tr = net.make_sd(h.loop, ("10.9.3.1", 30490), timings=tm)
+        peers = [("10.9.3.2", 30490), ("10.9.3.3", 30490), ("2001:db8::93", 30490, 0, 0)]
+        sess = {p: net.PeerSession() for p in peers}
+
+        def setup():
+            for iid in (1, 2):
+                svc = C.Service(0x3333, iid, 1, 0, eventgroups=frozenset({1, 2}))
+                prot.announcer.announce_service(S.ServiceInstance(svc, S.ServerServiceListener(), prot.announcer, tm))
+            prot.announcer.start()
+
+        h.at(0.0, setup)
+        t = 0.25
+        for _ in range(spec["actions"]):
+            t += rng.choice((0.0, 2.0 ** -9, 2.0 ** -7, 0.125))
+            p = rng.choice(peers)
+            ep = refwire.ep4(p[0], 4000) if ":" not in p[0] else refwire.ep6(p[0], 4000)
+            find = net.find(0x3333, rng.choice((1, 2, 0xFFFF)))
+            sub = net.subscribe(0x3333, rng.choice((1, 2)), 1, rng.choice((1, 2, 3)), rng.choice((3, 3, 0)), o1=[ep])
+            shape = rng.randrange(5)
+            groups = ([[find], [sub]], [[sub], [find]], [[find, sub]], [[sub, find, sub]], [[sub]])[shape]
+            for ents in groups:
+                fl, sid = sess[p].next()
+                h.at(t, prot.datagram_received, net.sd_bytes(ents, sid, reboot=fl), p, rng.random() < 0.2 and len(ents) == 1 and ents[0] is find)
+            ctx.count("find_and_subscribe_of_one_peer_in_one_iteration" if shape < 4 else "lone_subscribes")
+        h.run(t + 1.0)
+        judge_sd_log(ctx, tr.sent, IdModel(), dict(spec=spec), "answers made while receiving")
+        ctx.count("answer_path_datagrams", len(tr.sent))
+        bad = h.problems()
+        h.close()
+        for b in bad:
+            ctx.violation("unexpected-exception-during-run", b, dict(spec=spec))
+        if ctx.n_violations:
+            return
 
 
 def walk_notifications(ctx, spec, rng):
@@ -447,6 +494,7 @@ def shards(tier, seed):
     out.append(dict(shard=34, seed=seed, mode="notify", nsub=2, events=4, rounds=65535 // 4 + 60))
     out.append(dict(shard=35, seed=seed, mode="notify", nsub=3, events=3, rounds=65535 // 2 + 200, mixed=True))
     out.append(dict(shard=36, seed=seed, mode="churn", scenarios=40 if tier == "quick" else 1500, actions=120))
+    out.append(dict(shard=37, seed=seed, mode="answers", scenarios=60 if tier == "quick" else 3000, actions=80))
     if tier == "thorough":
         out.append(dict(shard=22, seed=seed, mode="announcer", collect=0, n=70000))
         out.append(dict(shard=31, seed=seed, mode="notify", nsub=4, events=1, rounds=65535 + 60))
@@ -475,6 +523,10 @@ def run(spec, ctx):
         ctx.case(("notify", spec["nsub"], spec["events"], spec["rounds"]), True,
                  sample=dict(path="SimpleEventgroup.notify_once", subscribers=spec["nsub"], events=spec["events"],
                              rounds=spec["rounds"]))
+    elif mode == "answers":
+        walk_answers(ctx, spec, rng)
+        ctx.case(("answers", spec["scenarios"]), True, sample=dict(path="acknowledgements, find answers and cyclic offers of a live "
+                                                                   "stack", scenarios=spec["scenarios"]))
     elif mode == "churn":
         walk_notification_churn(ctx, spec, rng)
         ctx.case(("churn", spec["scenarios"]), True, sample=dict(path="notifications with subscribers coming and going while address "
